@@ -34,6 +34,8 @@ type parserModel struct {
 	ig   *IG
 	iter ssa.Value // the iterator (result of sliceiterator.New, or an *Iterator parameter for helpers)
 
+	lenSets map[*ssa.If][2][5]bool // when non-nil, matchLenTest records the candidate-count classes of every test it sees
+
 	nextCalls   []*ssa.Call
 	valueCalls  []*ssa.Call
 	peekCalls   []*ssa.Call
